@@ -18,27 +18,64 @@ Definition agrees (D : ndata) (d : dict) (rho : Q) (w : wl) (ov : outs * list co
 Lemma rweight_nil : forall w, rweight w [] = 0%Q.
 Proof. reflexivity. Qed.
 
+Lemma rweight_acc_zero : forall (w : atom -> Q) d acc, (forall p, In p d -> snd p == 0)%Q ->
+  (fold_left (fun acc p => Qred (acc + w (fst p) * snd p)) d acc == acc)%Q.
+Proof.
+  intros w d. induction d as [|p r IH]; intros acc H; cbn [fold_left]; [reflexivity|].
+  rewrite IH by (intros q Hq; apply H; right; exact Hq).
+  rewrite Qred_correct. rewrite (H p (or_introl eq_refl)). ring.
+Qed.
+Lemma rweight_zero : forall (w : atom -> Q) d, (forall p, In p d -> snd p == 0)%Q -> (rweight w d == 0)%Q.
+Proof. intros w d H. unfold rweight. apply rweight_acc_zero. exact H. Qed.
+
+Lemma pos_or_all_zero : forall d : dict, (forall p, In p d -> (0 <= snd p)%Q) ->
+  (exists p, In p d /\ (0 < snd p)%Q) \/ (forall p, In p d -> (snd p == 0)%Q).
+Proof.
+  induction d as [|p r IH]; intro H; [right; intros p []|].
+  destruct (Qlt_le_dec 0 (snd p)) as [Hp|Hp].
+  - left. exists p. split; [left; reflexivity|exact Hp].
+  - destruct (IH (fun q Hq => H q (or_intror Hq))) as [(q & Hq & Hpos)|Hz].
+    + left. exists q. split; [right; exact Hq|exact Hpos].
+    + right. intros q [E|Hq]; [subst q; apply Qle_antisym; [exact Hp|apply H; left; reflexivity]|exact (Hz q Hq)].
+Qed.
+
+(* a call that returned values had a cell that is ok: data for every atom, some positive count *)
+Lemma scattering_cell_ok : forall D s density natural_density ws v rho,
+  (forall p, In p (atoms_of s) ->
+     (0 <= snd p)%Q /\ (0 < e_mass (nd_env D) (fst p))%Q
+     /\ (has_data D (fst p) = true -> rec_okb D (az (fst p)) (aa (fst p)) = true)) ->
+  density_of_compound D s density natural_density = Some rho ->
+  neutron_scattering D s density natural_density ws = OVals v ->
+  cell_ok D (atoms_of s) /\ all_some (map (compound_at D (atoms_of s) rho) ws) = Some v.
+Proof.
+  intros D s density natural_density ws v rho Hd Hrho H.
+  unfold neutron_scattering in H. rewrite Hrho in H.
+  destruct (forallb (fun p => has_data D (fst p)) (atoms_of s)) eqn:Hall; [|discriminate]. cbn [negb] in H.
+  destruct (Qeq_bool (rweight (e_mass (nd_env D)) (atoms_of s) * rho) 0) eqn:Hvac; [discriminate|].
+  split.
+  - split.
+    + intros p Hin. destruct (Hd p Hin) as (H1 & H2 & H3).
+      split; [exact H1|]. split; [exact H2|]. apply H3. rewrite forallb_forall in Hall. exact (Hall p Hin).
+    + destruct (pos_or_all_zero (atoms_of s) (fun p Hp => proj1 (Hd p Hp))) as [Hex|Hz]; [exact Hex|].
+      exfalso. assert (E : (rweight (e_mass (nd_env D)) (atoms_of s) * rho == 0)%Q).
+      { rewrite (rweight_zero _ _ Hz). ring. }
+      apply Qeq_bool_iff in E. congruence.
+  - destruct (all_some (map (compound_at D (atoms_of s) rho) ws)) as [v'|] eqn:Ev; [|discriminate].
+    inversion H. reflexivity.
+Qed.
+
 Theorem nsf_model_refines_spec : forall D s density natural_density ws v rho,
   (forall w, In w ws -> wl_pos w) ->
   (forall p, In p (atoms_of s) ->
-     (0 < snd p)%Q /\ (0 < e_mass (nd_env D) (fst p))%Q
+     (0 <= snd p)%Q /\ (0 < e_mass (nd_env D) (fst p))%Q
      /\ (has_data D (fst p) = true -> rec_okb D (az (fst p)) (aa (fst p)) = true)) ->
   density_of_compound D s density natural_density = Some rho -> (0 < rho)%Q ->
   neutron_scattering D s density natural_density ws = OVals v ->
   Forall2 (agrees D (atoms_of s) rho) ws v.
 Proof.
   intros D s density natural_density ws v rho Hws Hd Hrho Hpos H.
-  unfold neutron_scattering in H. rewrite Hrho in H.
-  destruct (forallb (fun p => has_data D (fst p)) (atoms_of s)) eqn:Hall; [|discriminate]. cbn [negb] in H.
-  destruct (Qeq_bool (rweight (e_mass (nd_env D)) (atoms_of s) * rho) 0) eqn:Hvac; [discriminate|].
-  assert (Hcell : cell_ok D (atoms_of s)).
-  { split.
-    - intro E. rewrite E in Hvac. rewrite rweight_nil in Hvac. discriminate Hvac.
-    - intros p Hin. destruct (Hd p Hin) as (H1 & H2 & H3).
-      split; [exact H1|]. split; [exact H2|]. apply H3. rewrite forallb_forall in Hall. exact (Hall p Hin). }
-  destruct (all_some (map (compound_at D (atoms_of s) rho) ws)) as [v'|] eqn:Ev; [|discriminate].
-  inversion H; subst v'. clear H.
-  revert v Ev Hws. induction ws as [|w r IH]; intros v Ev Hws; cbn [map all_some] in Ev.
+  destruct (scattering_cell_ok D s density natural_density ws v rho Hd Hrho H) as [Hcell Ev].
+  clear H. revert v Ev Hws. induction ws as [|w r IH]; intros v Ev Hws; cbn [map all_some] in Ev.
   - inversion Ev. constructor.
   - destruct (compound_at D (atoms_of s) rho w) as [[o ps]|] eqn:Ec; [|discriminate].
     destruct (all_some (map (compound_at D (atoms_of s) rho) r)) as [v'|] eqn:Er; [|discriminate].
@@ -104,7 +141,7 @@ Qed.
 (* C03 on the regenerated tables *)
 Theorem nsf_model_refines_spec_tables : forall s density natural_density ws v rho,
   (forall w, In w ws -> wl_pos w) ->
-  (forall p, In p (atoms_of s) -> (0 < snd p)%Q /\ (0 < e_mass the_env (fst p))%Q) ->
+  (forall p, In p (atoms_of s) -> (0 <= snd p)%Q /\ (0 < e_mass the_env (fst p))%Q) ->
   density_of_compound the_nd s density natural_density = Some rho -> (0 < rho)%Q ->
   neutron_scattering the_nd s density natural_density ws = OVals v ->
   Forall2 (agrees the_nd (atoms_of s) rho) ws v.
